@@ -75,7 +75,7 @@ def rule_point_file(ctx):
                 ctx.bad('K12', 'binio:error-kind:%s' % bb.nid, '%s constructs io::ErrorKind::%s' % (bb.nid, st['rv'].get('variant')), loc=site.loc())
     rex = ctx.facts.callers('std::io::Read::read_exact')
     nre = len([s for s in rex if s.body.file.endswith('src/utils/binio.rs')])
-    ctx.floor('K12', 'read_exact call sites in binio', nre, 8)
+    ctx.floor('K12', 'read_exact call sites in binio', nre, 6)
     ctx.ok('K12', 'binio:reads-only-via-read_exact', '%d read_exact sites, %d other read primitives in utils::binio' % (nre, n)) if n == 0 else None
     who_calls(ctx, 'K12', 'tempfile::NamedTempFile::persist', ['store::StoredPoint::_update'])
     tf = ctx.body('store::Store::tmp_file')
